@@ -21,6 +21,11 @@ CHECKS = {
         text="For each accepted text the monitor checks that printing does not raise, is deterministic, re-parses under the same flags to an equal tree (positions ignored) and re-prints identically. Exploration over generated documents with hostile string contents; held on the cases produced.",
         note="Tree equality is to_dict() without loc; descriptions are compared by value (the printer documents block form). Member descriptions are a listed known finding and removed from both sides.",
         design="4/C03"),
+    "C18": dict(
+        technique="recording visitors (plain, chained, generated DispatchingVisitor subclass) produce an event log that an offline checker compares with an independent source-ordered tree walk; edits are compared with the same edit applied directly to a second parse",
+        text="Exactly-once, balanced nesting, sibling order, no-op identity, locality of delete/replace/skip and chain ordering are decided on the event log and result tree of every generated document; ast_transforms visitors are compared with direct edits. Exploration; 13 mechanisms are listed known findings pinned by the repository's literal event lists.",
+        note="Source order = order of loc start offsets; node identity by object id within one parse, by structural path across parses.",
+        design="4/C18"),
 }
 
 PENDING_REASON = "check not built yet in this session (planned: see DESIGN.md section 4); no claim is made"
